@@ -310,6 +310,12 @@ pub axiom fn ax_to_bbox_start_length(p: Position)
         && val(to_bbox_spec(p)->Some_0.x2) == val(p.xmin->Some_0) + val(p.width->Some_0) && val(to_bbox_spec(p)->Some_0.y2) == val(p.ymin->Some_0) + val(p.height->Some_0);
 pub open spec fn rmin2(a: real, b: real) -> real { if a <= b { a } else { b } }
 /// the reuse element gives a numeric x and y and no other position attribute
+/// the reuse element gives no position of its own: the instance is the template as written (its own cx / cy / dx ... are resolved as for any hand-written element)
+pub open spec fn no_position(e: SvgElement) -> bool {
+    let m = e.attrs@;
+    num(m, "x"@) is None && num(m, "y"@) is None && num(m, "x1"@) is None && num(m, "y1"@) is None && num(m, "x2"@) is None && num(m, "y2"@) is None
+    && num(m, "cx"@) is None && num(m, "cy"@) is None && num(m, "dx"@) is None && num(m, "dy"@) is None
+}
 pub open spec fn only_xy(e: SvgElement) -> bool {
     let m = e.attrs@;
     e.name@ == "reuse"@ && num(m, "x"@) is Some && num(m, "y"@) is Some
@@ -320,13 +326,14 @@ pub open spec fn only_xy(e: SvgElement) -> bool {
 //@item src/reuse.rs :: impl EventGen for ReuseElement :: fn generate_events
 //@ fragment-name place_instance
 //@ fragment-from <<<        let mut pos = Position::from(&reuse_element);>>>
-//@ fragment-to <<<        pos.set_position_attrs(&mut instance_element);>>>
+//@ fragment-to <<<            pos.set_position_attrs(&mut instance_element);\n        }>>>
 //@ fragment-head <<<fn place_instance(reuse_element: SvgElement, inst_el: &SvgElement, instance_size: Option<(f32, f32)>, mut instance_element: SvgElement) -> SvgElement {>>>
 //@ fragment-tail <<<    instance_element\n}>>>
-//@ before <<<        pos.set_position_attrs(&mut instance_element);>>>
+//@ before <<<            pos.set_position_attrs(&mut instance_element);>>>
 //@ | proof { ax_to_bbox_start_length(pos); }
 //@ ensures
 //@ - r.name == instance_element.name     @@C18.place.frame
+//@ - no_position(reuse_element) ==> r == instance_element     @@C18.place.no_position_keeps_template
 //@ - is_rectlike(instance_element.name@) && only_xy(reuse_element) && inst_el.content_bbox is None && instance_size is Some ==>
 //@       written(r.attrs@, "x"@, num(reuse_element.attrs@, "x"@)->Some_0) && written(r.attrs@, "y"@, num(reuse_element.attrs@, "y"@)->Some_0)     @@C18.place.rectlike
 //@ - instance_element.name@ == "circle"@ && only_xy(reuse_element) && inst_el.content_bbox is None && instance_size is Some ==>
